@@ -168,6 +168,7 @@ type Engine struct {
 	specPaths int
 	capVal    map[string]Val
 	boundedLoops map[string]bool
+	safetyOff    map[string]bool
 	globalNames map[int64]string
 	opaqueT   map[string]bool // spec functions kept uninterpreted while the current target is verified
 	heapTouch int
@@ -263,6 +264,16 @@ func (e *Engine) oblig(s *State, name string, cond Term) {
 	if strings.HasPrefix(name, "safe.") && e.curInstr != nil {
 		name += e.site(e.curInstr)
 	}
+	if strings.HasPrefix(name, "safe.") && e.curT != nil && !e.curT.D.Safety {
+		// safety=off: the contract speaks about normal returns only (a run-time panic of this function is tolerated
+		// by design - stated in the evidence); the path continues under the assumption that the site did not panic
+		e.assume(s, cond)
+		if e.safetyOff == nil {
+			e.safetyOff = map[string]bool{}
+		}
+		e.safetyOff[e.curT.Short] = true
+		return
+	}
 	full := e.curFn + "#" + name
 	for _, p := range s.pc {
 		if p.S == cond.S {
@@ -277,6 +288,15 @@ func (e *Engine) oblig(s *State, name string, cond Term) {
 	}
 	var b strings.Builder
 	b.WriteString(e.script(s, cond))
+	if e.curT != nil && hasArg(e.curT.D, "qinst") { // ground instances of quantified hypotheses at the goal's Skolem constants
+		roots := []string{cond.S}
+		var pcs []string
+		for _, p := range s.pc {
+			roots = append(roots, p.S)
+			pcs = append(pcs, p.S)
+		}
+		b.WriteString(addInstances(coneDefs(s.defs, roots), pcs, cond.S, 1<<20))
+	}
 	b.WriteString("(assert (not " + cond.S + "))\n(check-sat)\n")
 	e.obs = append(e.obs, &Oblig{T: e.curT, Name: full, Script: b.String(), Expect: "unsat", Bounded: bounded, run: e.curRun, st: s, npc: len(s.pc), cond: cond})
 	// after checking, the condition may be assumed on this path (standard)
